@@ -7,6 +7,8 @@ def specs(mode="construct"):
     tab = ibantasks.table()
     out = [("props.ibantasks", "IbanTask", (cc, mode)) for cc in sorted(tab)]
     out.append(("props.ibantasks", "IbanTask", ("None", mode)))
+    if mode == "construct":
+        out += [("props.ibantasks", "IbanTask", (cc, "from-object")) for cc in ("DE", "GB", "NO", "None")]
     out += [("props.shared", "NumerifyTask", (n,)) for n in shared.numerify_lengths()]
     return out
 
